@@ -16,7 +16,8 @@ AllNoteP == {[n |-> <<"C">>, o |-> 4, ch |-> 1, vel |-> 64], [n |-> <<"E","b">>,
           [n |-> <<"F","#">>, o |-> 3, ch |-> 0, vel |-> 127], [n |-> <<"G">>, o |-> 5, ch |-> 9, vel |-> 1],
           [n |-> <<"B","#">>, o |-> 2, ch |-> 15, vel |-> 100], [n |-> <<"C","b">>, o |-> 6, ch |-> 4, vel |-> 0],
           [n |-> <<"A">>, o |-> 0, ch |-> 2, vel |-> 90], [n |-> <<"D","#","#">>, o |-> 7, ch |-> 1, vel |-> 33],
-          [n |-> <<"G">>, o |-> 8, ch |-> 3, vel |-> 64], [n |-> <<"B","b","b">>, o |-> 1, ch |-> 7, vel |-> 80]}
+          [n |-> <<"G">>, o |-> 8, ch |-> 3, vel |-> 64], [n |-> <<"B","b","b">>, o |-> 1, ch |-> 7, vel |-> 80],
+          [n |-> <<"C","b">>, o |-> 0, ch |-> 6, vel |-> 50]}        \* MIDI 11: the lowest octave of the format
 NoteP == IF RT THEN {x \in AllNoteP : x.vel >= 1} ELSE AllNoteP
 SortByPitch(S) == SetToSortSeq(S, LAMBDA a, b : MidiPitch(a) < MidiPitch(b))
 NoteSeq == SortByPitch(NoteP)
